@@ -56,8 +56,11 @@ int main(int argc, char** argv)
     "polynomial set incl. gradients/Hessians, two-sided continuity on the shared facet. Non-trivial = anything but the reference cell in canonical "
     "numbering without twist; hashed by (family, vertex coordinates, all index sets).";
   spec.max_fail_per_worker = 1000000; // known findings fire in every case of the affected family
-  spec.bounds_quick = "shapes line/tria/quad/tetra/hexa; 1-cell: 3-all numberings x {ref,affine,nonaffine} x single-entity twists; 2-cell: pairs (g,0),(0,g),(g,g),(g,7g+3) x global twists";
-  spec.bounds_thorough = "1-cell: all numberings x 5 geometries x single-entity twists; 2-cell: ALL pairs of numberings (quad 64, tria 36, tetra 576, hexa 2304) x global twists";
+  spec.bounds_quick = "line/tria/quad: 1-cell all numberings x all geometries x single-entity twists, 2-cell ALL pairs of numberings (line 4, tria 36, quad 64) x "
+    "{ref,affine,mirror | ref,affine,nonaffine,affine*nonaffine} x single-entity twists; tetra/hexa: 1-cell numberings {0,last} x {ref,affine(,nonaffine)} (single-entity "
+    "twists on the last geometry), 2-cell star pairs (g,0),(0,g) x every global orientation pattern and diagonal pairs (g,g),(g,7g+3), geometries affine (+nonaffine), P_k test functions";
+  spec.bounds_thorough = "tetra/hexa additionally: 1-cell all numberings x all 3 resp. 5 geometries (single-entity twists for numbering 0), 2-cell ALL pairs of numberings "
+    "(tetra 576 x {ref,affine,mirror}, hexa 2304 x {affine,nonaffine}) with entity orientations as seen from cell A + star pairs x every global orientation pattern, Q_k test functions";
   spec.assumptions = {
     "reference cell conventions (vertex coordinates, FaceIndexMapping tables) are definitions, taken from FEAT",
     "harness oracles: long double sparse polynomials, Newton inverse of the multilinear map, DOF-per-entity tables",
